@@ -649,6 +649,9 @@ func readBatch(path string) ([][]byte, error) {
 
 // c05Worker: vcheck worker C05 <batchfile> <progressfile> <resultfile> <timeoutScale>
 func c05Worker(args []string) int {
+	if len(args) >= 2 && args[0] == "scale" {
+		return c05ScaleWorker(args[1:])
+	}
 	if len(args) < 4 {
 		return 2
 	}
@@ -711,7 +714,8 @@ func runC05(c *ev.Ctx) {
 		"frame repetition) of valid lossy/lossless/alpha/extended/animated/synthesized files (incl. extreme aspect ratios such as 16000x9), plus hand-made declaration bombs and header-prefixed garbage; " +
 		"per input (by a hash of its bytes) the internal worker count is left at GOMAXPROCS=2 or forced to 16/5/37 and the reader is a bytes.Reader, a reader without Len() or short reads; in child processes under " +
 		"ulimit -v with per-case logging; oracles: no panic / fatal / child death, watchdog (3 isolated re-runs before a verdict), TotalAlloc <= 64MiB + 64*len + 48*(declared px), " +
-		"well-formed results; distinct = distinct (mutation operator, seed kind, number of accepting entry points) tuples"
+		"well-formed results; plus a scaling probe: 108 families of n repeated units (chunk kinds x container heads x tails) at n and 4n, CPU time ratio > 10 with >= 0.4 s CPU, three times in a row = superlinear-time; " +
+		"distinct = distinct (mutation operator, seed kind, number of accepting entry points) tuples"
 	c.Assume("declared pixel area is computed by a tolerant scanner that over-approximates (every header-looking byte sequence counts)")
 	exe := os.Getenv("VERIF_EXE")
 	if exe == "" {
@@ -789,6 +793,9 @@ func runC05(c *ev.Ctx) {
 		}(b)
 	}
 	wg.Wait()
+	if c.Only < 0 {
+		c05Scaling(c, exe)
+	}
 	c.Extra("outcome_classes", classes)
 	c.Extra("children", nBatches)
 }
